@@ -24,7 +24,12 @@ RULE = (
     "triple of a listed pool) x reference-id schemes x single-bit masks, each built through from_sequences, "
     "from_kmers, from_kmer_selection, from_positions, from_tables (both orders), pickle, deepcopy. sim: every "
     "threshold of the score range of the listed matrices. selectors: every sequence up to the length bound x window "
-    "/ (k, s, offset subsets) / compression x listed permutations. A case is counted once; it is non-trivial when "
+    "/ (k, s, offset subsets) / compression x listed permutations. alias: every constructor / method of the family x "
+    "every mutable argument (spacing model as int64/int32/uint8 ndarray and list, in sorted and reversed order, for every "
+    "model; k-mer, position, id, count, offset and matrix arrays, masks, sequence code arrays, argument lists and dicts) x "
+    "every in-place mutation of the caller's object (each element, reverse, sort, zeros, clear/pop) after the call, plus "
+    "zeroing every array the object returns: the complete observation of the object must not move, must equal that of a "
+    "twin built from private copies, and the call must leave its arguments as passed. A case is counted once; it is non-trivial when "
     "the model's result set (triples / selected positions / similar k-mers) is non-empty and, for tables, at least "
     "one k-mer of the reference is stored."
 )
@@ -718,6 +723,12 @@ def bounds(tier):
                       "mincode": sc["mincode"], "compression": sc["compression"], "permutations": list(PERMS)},
         "kmer_alphabet": {"(n, k, max length)": kalph_cfg(tier), "spacing_forms": list(FORMS), "code_dtypes": list(DTYPES)},
         "malformed_probes": "fixed list (see oor_probes), each in a forked child",
+        "alias": {"scenarios": len(alias_scenarios(tier)), "spacing_forms": list(SPACING_FORMS),
+                  "spacing_models": "KmerAlphabet: every k-subset of [0, k+2) for k = 2, 3 in sorted and reversed order; table "
+                                    "constructors: every model of k = 2 and %s of k = 3" % ("2 listed models" if tier == "quick" else "every model"),
+                  "mutations": "each element (+1 / flipped), reverse, sort, zeros; lists also clear / pop; dicts popfirst / clear; "
+                               "every returned array zeroed",
+                  "unspecified_shared_arguments": sorted("%s(%s)" % k for k in ALIAS_UNSPECIFIED)},
         "palettes": {str(k): [list(map(str, p)) for p in v] for k, v in PALETTES.items()},
     }
 
